@@ -67,6 +67,53 @@ SHARED_CHILD = {
                   '  <units name="base"><unit units="metre"/></units>\n</model>\n'}
 
 
+_H = '<?xml version="1.0" encoding="UTF-8"?>\n<model xmlns="http://www.cellml.org/cellml/2.0#" xmlns:xlink="http://www.w3.org/1999/xlink" name="%s">\n'
+# known finding C06-renaming-captures-mapped-units: the library's A (millisecond) is mapped onto the importer's equivalent B, then the
+# library's own B (kilogram) is renamed B_1 and the by-name update of the usages also catches x
+UNIT_SWAP = {
+    'origin.cellml': _H % 'main' + '  <import xlink:href="lib.cellml"><component component_ref="c" name="c"/></import>\n  <units name="B"><unit prefix="milli" units="second"/></units>\n'
+                     '  <component name="m"><variable name="t" units="B" initial_value="1"/></component>\n</model>\n',
+    'lib.cellml': _H % 'lib' + '  <units name="A"><unit prefix="milli" units="second"/></units>\n  <units name="B"><unit prefix="kilo" units="gram"/></units>\n'
+                  '  <component name="c"><variable name="x" units="A" initial_value="2"/><variable name="y" units="B" initial_value="3"/></component>\n</model>\n'}
+# known finding C06-placeholder-units-written-to-the-library: the middle model's u is renamed on transfer; the update of the usages resolves the
+# placeholder of the imported child d to the variable of the leaf library and re-points its units (which merely share the name u)
+CHAIN2 = {
+    'origin.cellml': _H % 'main' + '  <import xlink:href="mid.cellml"><component component_ref="c" name="c"/></import>\n  <units name="u"><unit prefix="milli" units="second"/></units>\n'
+                     '  <component name="m"><variable name="t" units="u" initial_value="1"/></component>\n</model>\n',
+    'mid.cellml': _H % 'mid' + '  <import xlink:href="leaf.cellml"><component component_ref="d" name="d"/></import>\n  <units name="u"><unit prefix="kilo" units="gram"/></units>\n'
+                  '  <units name="u2"><unit units="metre"/><unit units="metre"/></units>\n  <component name="c"><variable name="x" units="u" initial_value="2"/><variable name="z" units="u2" interface="private"/></component>\n'
+                  '  <connection component_1="c" component_2="d"><map_variables variable_1="z" variable_2="z"/></connection>\n'
+                  '  <encapsulation><component_ref component="c"><component_ref component="d"/></component_ref></encapsulation>\n</model>\n',
+    'leaf.cellml': _H % 'leaf' + '  <units name="u"><unit units="metre"/><unit units="metre"/></units>\n  <component name="d"><variable name="z" units="u" initial_value="3" interface="public"/></component>\n</model>\n'}
+
+
+def renaming_probes(chk, hxi, wd, oracle, stats):
+    kfs = {f['id']: f for f in known_findings()['findings'] if f['property'] == 'C06'}
+    # 1. x must still be in milliseconds
+    err, res = flatten_world(hxi, UNIT_SWAP, wd)
+    bad = err
+    if not err:
+        flat = open(res['flatf']).read()
+        m = re.search(r'<variable name="x" units="(\w+)"', flat)
+        d = re.search(r'<units name="%s">(.*?)</units>' % (m.group(1) if m else '?'), flat, re.S)
+        stats['unit_swap_probe'] = m.group(1) if m else None
+        if not (d and 'second' in d.group(1)):
+            bad = 'the variable x of the library (milliseconds, units A) is in %s in the flat model, defined as %s' % (m.group(1) if m else '?', ' '.join((d.group(1) if d else '?').split()))
+    if bad:
+        if 'C06-renaming-captures-mapped-units' in kfs and not err:
+            chk.known_finding(kfs['C06-renaming-captures-mapped-units']['what'])
+        else:
+            oracle.append(('units change their meaning through flattening: ' + bad, {'files': UNIT_SWAP, 'kind': 'renaming-probe'}))
+    # 2. the leaf library must stay as it is and the flat model must be valid
+    err, res = flatten_world(hxi, CHAIN2, wd)
+    stats['chain2_probe'] = err
+    if err:
+        if 'C06-placeholder-units-written-to-the-library' in kfs and err == 'flattenModel changes a model of the library':
+            chk.known_finding(kfs['C06-placeholder-units-written-to-the-library']['what'])
+        else:
+            oracle.append((err, {'files': CHAIN2, 'kind': 'renaming-probe'}))
+
+
 def units_import_world(rng):
     """an imported units whose definition reaches one child units through several references (U = V^a W^b, V = base^2, W = base^3), the child's
     name (and sometimes an intermediate one) clashing with different units of the importing model; a variable in U is connected to one in
@@ -369,6 +416,8 @@ def run(chk, replay=None):
                 oracle.append((err, rec))
             else:
                 name_lines.append('(names (m1 a) (a a_1) 1)'); name_meta.append((sorted(component_names(res['dump'])), rec))
+        if not replay:
+            renaming_probes(chk, hxi, wd, oracle, stats)
         # the input of known finding C06-shared-child-units-moved, always replayed
         if not replay:
             err, res = flatten_world(hxi, SHARED_CHILD, wd)
